@@ -4,15 +4,16 @@
 static void mon_read_block(struct DataAccess *obj, unsigned long lba) { (void)obj; (void)lba; }
 static void mon_read_result(struct DataAccess *obj, _Bool ok) { (void)obj; (void)ok; }
 static unsigned long g_tm_entries, g_tm_max_size;
+static struct TrackDataKey g_tm_last_key;       /* the key of the entry inserted last */
 static void trackmap_insert(struct TrackDataKey k, struct TrackData td)
 {
-  (void)k;
+  g_tm_last_key = k;
   if (g_tm_entries < (1ul << 60)) g_tm_entries++;
   if (td.mfmtracksize > g_tm_max_size) g_tm_max_size = td.mfmtracksize;
 }
 #define max_track_bytes (1ul << 20)
 #define TRACKLIST_LOOP_CONTRACT \
-  __CPROVER_assigns(pos, g_tm_entries, g_tm_max_size, g_exc, g_exc_by_pointer, __CPROVER_object_whole(g_dyn_store)) \
+  __CPROVER_assigns(pos, g_tm_entries, g_tm_max_size, g_tm_last_key, g_exc, g_exc_by_pointer, __CPROVER_object_whole(g_dyn_store)) \
   __CPROVER_loop_invariant(pos >= 0x13 && pos <= g_flen + 11 + 0xFFFFFFFFul && g_exc == EXC_NONE && g_tm_max_size <= (1ul << 20)) \
   __CPROVER_loop_invariant(pos == self->header_.track_list_offset || g_tm_entries >= 1) \
   __CPROVER_decreases(g_flen + 22 + 0xFFFFFFFFul - pos)
